@@ -300,6 +300,20 @@ theorem run_erase (rc : RCfg μ) (evs : List REv) :
       simp only [runP, stepP, List.filterMap_cons, REv.toEv, List.nil_append]
       exact this
 
+/-- the routing model of consecutive connections erases to the reader model of consecutive connections -/
+theorem runSessions_erase (rc : RCfg μ) (ss : List (List REv)) :
+    ∀ prev : RSt, (runSessionsP rc prev ss).map (fun r => r.2.filterMap erase)
+      = runSessions rc.toCfg prev.st (ss.map (fun evs => evs.filterMap REv.toEv)) := by
+  induction ss with
+  | nil => intro prev; simp [runSessionsP, runSessions]
+  | cons evs rest ih =>
+    intro prev
+    have h := run_erase rc evs (enterP prev)
+    have := ih (runP rc (enterP prev) evs).1
+    simp only [runSessionsP, runSessions, List.map_cons]
+    rw [this, h.1, h.2]
+    rfl
+
 theorem mainOf_erase (o : List (ROut μ)) : delivered (o.filterMap erase) = mainOf o := by
   induction o with
   | nil => rfl
